@@ -141,7 +141,7 @@ Section Optimiser.
 
   (* The part of the program state a proposal acts on: the parameter cells, the handles (the basis) and the number of
      score() calls made.  The three operations of the inner loop's body on it (None = the expect() panic).  The
-     translation of the loop body (gen/GenFns.v gen_mc_step) is written with these; proofs/SourceFacts.v shows that
+     translation of the loop body (gen/GenFns.v gen_mc_step) is written with these; proofs/SrcOpt.v shows that
      it is mc_step below. *)
   Record world := mkWorld { w_params : list T; w_handles : list handle; w_calls : N }.
 
